@@ -88,7 +88,7 @@ fn verif_grid() {
     }
     let vocabulary = ["SELECT", "FROM", "WHERE", "GROUP", "BY", "HAVING", "LIMIT", "JOIN", "INNER", "OUTER", "ON", "AS", "AND", "OR", "NOT", "IS", "NULL", "IN", "CASE", "WHEN", "THEN", "ELSE", "END",
         "CREATE", "TABLE", "DISTINCT", "EXTRACT", "DEFAULT", "TRIM", "true", "false", "a", "b", "t", "x1", "COUNT", "sum", "1", "0", "-1", "2.5", "9223372036854775808", "1e999", "'s'", "'", "\"", "(", ")", "[", "]", "{", "}",
-        ",", ";", ".", "::", "=>", "=", "!=", "<", "<=", ">", ">=", "+", "-", "*", "/", "^", "!", "%", "--", "\n", " ", "\t", "é", "日本", "\u{1F600}", "\u{0}", "\\", "int", "TEXT"];
+        ",", ";", ".", "::", "=>", "=", "!=", "<", "<=", ">", ">=", "+", "-", "*", "/", "^", "!", "%", "--", "\n", " ", "\t", "é", "日本", "\u{1F600}", "\u{0}", "\\", "int", "TEXT", "\u{130}", "\u{212a}", "array", "array[", "[]", "\u{df}", "\u{1e9e}"];
     let mut rng = Lcg(20240917);
     for i in 0..3000 {
         let n = 1 + rng.below(12);
@@ -115,6 +115,11 @@ fn verif_grid() {
                       "CREATE TABLE t(a = '(\\\\w{1000})', a[1] => x TEXT);", "CREATE TABLE t(a = '((((a{10}){10}){10}){10})', a[1] => x TEXT);", "CREATE TABLE t(a = 'a{999999999}', a[0] => x TEXT);",
                       "CREATE TABLE t(a = '(?i)[\\\\p{L}\\\\p{N}]{1,50}', b = '[\\\\p{L}]{60}', c = '\\\\pL{70}', a[0] => x TEXT);"].iter().enumerate() {
         g.case(&format!("large-patterns-{}", i), move || total(text));
+    }
+    for (i, text) in ["CREATE TABLE t(a = 'x', a[1] => x \u{130}[]);", "CREATE TABLE t(a = 'x', a[1] => x \u{212a}\u{212a}[]);", "CREATE TABLE t(a = 'x', a[1] => x \u{130}NT);", "CREATE TABLE t(a = 'x', a[1] => x TEXT[][]);",
+                      "CREATE TABLE t(a = 'x', a[1] => x \u{df}[] TRIM);", "SELECT a::\u{130}[] FROM t", "SELECT array[] FROM t", "SELECT array[NULL] FROM t", "SELECT array_cat(array[1], array[]) FROM t", "SELECT array[1, 'x', NULL, 2.5] FROM t",
+                      "SELECT array[array[1], array[]] FROM t", "SELECT array[1][1] FROM t", "SELECT array FROM t", "SELECT array[ FROM t"].iter().enumerate() {
+        g.case(&format!("odd-types-and-arrays-{}", i), move || total(text));
     }
     // rejected with an error, not a crash and not accepted
     for (i, text) in ["CREATE TABLE t(line = '(unclosed', line[1] => x TEXT);", "CREATE TABLE t({ } => x INT);", "SELECT SUM(a, b) FROM t", "SELECT COUNT(a, b, c) FROM t",
